@@ -46,28 +46,28 @@ U2R = U2 + [(V, 'u2_replace', {})]
 
 PROPS = {
     'C01': dict(
-        components=[(V, 'l1_semantics', {})] + [(V, 'u1_search', {}), (V, 'u1_iter', {}),
+        components=[(V, 'l1_semantics', {})] + [(V, 'u1_search', {}), (V, 'u1_iter', {}), (V, 'u4_nnfa_build', {}),
                     sem('lf,ll', 'find,iter,spans'), sem('lf,ll', 'find,iter', families='deep,bytes,many'),
-                    ('kani', 'pattern_raw', {}), ('kani', 'search_leaf', {}), b('pc', aspects='find,iter', mode='api'), b('packed')],
-        level_text='Proof (Verus, unbounded in haystack/span): the real try_find_fwd/try_find_fwd_imp/get_match return the abstract run answer find_spec ("keep the last match, stop at dead state or span end") of any automaton satisfying the Automaton contract AC, and FindIter::next/handle_overlapping_empty_match/search implement the iterator step relation of the statement (restart at previous end, empty-match rule). Kani (bounded by length): the confirmation compare of the packed prefilter (is_equal_raw/is_prefix) looks at every byte. Bounded stand-in: leftmost-first/longest definition vs the real builders on all small pattern lists, and with every prefilter variant active (long patterns, near-miss haystacks).',
+                    ('kani', 'pattern_raw', {}), ('kani', 'search_leaf', {}), b('pc', aspects='find,iter', mode='api'), b('packed'), sem('lf,ll', 'find,iter', families='small', _plain='1')],
+        level_text='Proof (Verus, unbounded in haystack/span): the real try_find_fwd/try_find_fwd_imp/get_match return the abstract run answer find_spec ("keep the last match, stop at dead state or span end") of any automaton satisfying the Automaton contract AC, and FindIter::next/handle_overlapping_empty_match/search implement the iterator step relation of the statement (restart at previous end, empty-match rule). Kani (bounded by length): the confirmation compare of the packed prefilter (is_equal_raw/is_prefix) looks at every byte. Bounded stand-in: leftmost-first/longest definition vs the real builders on all small pattern lists, and with every prefilter variant active (long patterns, near-miss haystacks). Builder side (Verus, u4_nnfa_build): the mutators with which the noncontiguous compiler writes the automaton — add_transition, add_match, copy_matches, alloc_state/transition/match, next_link — keep the builder-time representation invariant bwf (sorted acyclic sparse chains, links in bounds, chains of different states disjoint, forward match links) and change the abstract view in exactly one point: the added edge is the edge that is found and no other byte of any state changes its answer; a match is appended last and a copied list follows the own list in source order, once each; overflow of the id space is an Err. The compiler passes that call them are out of reach (bounded only).',
         level_note=LEMMA_NOTE + COMMON_NOTE,
     ),
     'C02': dict(
-        components=[(V, 'l1_semantics', {}), ('kani', 'search_leaf', {})] + [(V, 'u1_search', {}), (V, 'u1_iter', {}),
-                    sem('std', 'find,iter,spans'), sem('std', 'find,iter', families='deep,bytes'), b('pc', aspects='find,iter', mode='api')],
-        level_text='Proof (Verus): try_find_fwd forces earliest for standard automata (dispatcher obligation) and the loop returns at the first match state (find_spec with earliest); iterator as in C01. Bounded stand-in: earliest-end/longest/first-supplied definition vs the real builders.',
+        components=[(V, 'l1_semantics', {}), ('kani', 'search_leaf', {})] + [(V, 'u1_search', {}), (V, 'u1_iter', {}), (V, 'u4_nnfa_build', {}),
+                    sem('std', 'find,iter,spans'), sem('std', 'find,iter', families='deep,bytes'), b('pc', aspects='find,iter', mode='api'), sem('std', 'find,iter', families='small', _plain='1')],
+        level_text='Proof (Verus): try_find_fwd forces earliest for standard automata (dispatcher obligation) and the loop returns at the first match state (find_spec with earliest); iterator as in C01. Bounded stand-in: earliest-end/longest/first-supplied definition vs the real builders. Builder side (Verus, u4_nnfa_build): the mutators with which the noncontiguous compiler writes the automaton — add_transition, add_match, copy_matches, alloc_state/transition/match, next_link — keep the builder-time representation invariant bwf (sorted acyclic sparse chains, links in bounds, chains of different states disjoint, forward match links) and change the abstract view in exactly one point: the added edge is the edge that is found and no other byte of any state changes its answer; a match is appended last and a copied list follows the own list in source order, once each; overflow of the id space is an Err. The compiler passes that call them are out of reach (bounded only).',
         level_note=LEMMA_NOTE + COMMON_NOTE,
     ),
     'C03': dict(
-        components=[(V, 'l1_semantics', {})] + [(V, 'u1_overlap', {}),
-                    sem('std', 'ov,spans'), sem('std', 'ov', families='deep,bytes'), b('pc', aspects='ov', mode='api'), b('nested')],
-        level_text='Proof (Verus): every call of the real try_find_overlapping_fwd(_imp) on an OverlappingState reports the head of ov_remaining(state) (abstraction function over id/at/next_match_index) and leaves its tail, or reports None forever once it is empty — for all call-history prefixes, haystacks, spans. Bounded stand-in: the listing equals all occurrences exactly once in (end, longer-first, id) order on the real builders.',
+        components=[(V, 'l1_semantics', {})] + [(V, 'u1_overlap', {}), (V, 'u4_nnfa_build', {}),
+                    sem('std', 'ov,spans'), sem('std', 'ov', families='deep,bytes'), b('pc', aspects='ov', mode='api'), b('nested'), sem('std', 'ov', families='small', _plain='1'), sem('std', 'ov', families='ci', ci='1', _plain='1'), sem('std', 'ov', families='ci', ci='1')],
+        level_text='Proof (Verus): every call of the real try_find_overlapping_fwd(_imp) on an OverlappingState reports the head of ov_remaining(state) (abstraction function over id/at/next_match_index) and leaves its tail, or reports None forever once it is empty — for all call-history prefixes, haystacks, spans. Bounded stand-in: the listing equals all occurrences exactly once in (end, longer-first, id) order on the real builders. Builder side (Verus, u4_nnfa_build): the mutators with which the noncontiguous compiler writes the automaton — add_transition, add_match, copy_matches, alloc_state/transition/match, next_link — keep the builder-time representation invariant bwf (sorted acyclic sparse chains, links in bounds, chains of different states disjoint, forward match links) and change the abstract view in exactly one point: the added edge is the edge that is found and no other byte of any state changes its answer; a match is appended last and a copied list follows the own list in source order, once each; overflow of the id space is an Err. The compiler passes that call them are out of reach (bounded only).',
         level_note=LEMMA_NOTE + COMMON_NOTE,
     ),
     'C04': dict(
-        components=[('kani', 'alphabet_leaf', {}), (V, 'l2_bisim', {}), (V, 'u1_forward', {})] + U1 + [(V, 'u3_dfa', {}), (V, 'u3_nnfa', {}), (V, 'u3_cnfa', {}), ('kani', 'nnfa_leaf', {}), b('bisim', families='small,abc,ci,wide'), b('bigkinds'),
-                         sem('std,lf,ll', 'find,iter,ov,anch', families='small,abc', cfgs='all', rel='kind', thorough_aspects='find,iter,ov,anch,spans')],
-        level_text='Proof (Verus): every search API is a function of the abstract automaton only (find_spec / ov_remaining over AC), so two representations with equal abstract behaviour give equal results for every haystack; the accessors of each representation are proved to compute the abstract transition function of that representation (u3_dfa, u3_nnfa: a densified state answers exactly like its sparse chain; u3_cnfa: the dense, one-transition and sparse encodings all answer c_lookup). Bounded stand-in (exhaustive over haystacks per pattern list): product BFS bisimulation of the reference noncontiguous NFA with every contiguous/DFA/dense-depth/byte-class configuration over all 256 bytes from both start states; top-level vs low-level use compared through the API.',
+        components=[('kani', 'alphabet_leaf', {}), (V, 'l2_bisim', {}), (V, 'u1_forward', {})] + U1 + [(V, 'u3_dfa', {}), (V, 'u3_nnfa', {}), (V, 'u3_cnfa', {}), (V, 'u4_nnfa_build', {}), ('kani', 'nnfa_leaf', {}), b('bisim', families='small,abc,ci,wide'), b('bigkinds'),
+                         sem('std,lf,ll', 'find,iter,ov,anch,earliest', families='small,abc', cfgs='all', rel='kind', thorough_aspects='find,iter,ov,anch,earliest,spans')],
+        level_text='Proof (Verus): every search API is a function of the abstract automaton only (find_spec / ov_remaining over AC), so two representations with equal abstract behaviour give equal results for every haystack; the accessors of each representation are proved to compute the abstract transition function of that representation (u3_dfa, u3_nnfa: a densified state answers exactly like its sparse chain; u3_cnfa: the dense, one-transition and sparse encodings all answer c_lookup). Bounded stand-in (exhaustive over haystacks per pattern list): product BFS bisimulation of the reference noncontiguous NFA with every contiguous/DFA/dense-depth/byte-class configuration over all 256 bytes from both start states; top-level vs low-level use compared through the API. Builder side (Verus, u4_nnfa_build): the mutators with which the noncontiguous compiler writes the automaton — add_transition, add_match, copy_matches, alloc_state/transition/match, next_link — keep the builder-time representation invariant bwf (sorted acyclic sparse chains, links in bounds, chains of different states disjoint, forward match links) and change the abstract view in exactly one point: the added edge is the edge that is found and no other byte of any state changes its answer; a match is appended last and a copied list follows the own list in source order, once each; overflow of the id space is an Err. The compiler passes that call them are out of reach (bounded only).',
         level_note=COMMON_NOTE + ' The lifting "bisimilar automata => equal scan / find_spec / ov_list" (L-bisim) is proved in unit l2_bisim; the bisimulation itself is established per pattern list by the bounded product BFS.',
     ),
     'C05': dict(
@@ -82,7 +82,7 @@ PROPS = {
         level_note='Teddy window arithmetic and bucket assignment, and the Rabin-Karp constructor (rk_wf), are covered by the bounded executed contract only (labelled bounded). SIMD intrinsics are outside every installed verifier.',
     ),
     'C07': dict(
-        components=[(V, 'l1_semantics', {})] + U2 + [(V, 'u1_iter', {}), b('stream', aspects='find'), b('ac', families='small', lens='1')],
+        components=[(V, 'l1_semantics', {})] + U2 + [(V, 'u1_iter', {}), b('stream', aspects='find'), b('ac', families='small', lens='1'), b('stream', aspects='find', _plain='1')],
         level_text='Proof (Verus, fully within the family): for every reader obeying the std::io::Read contract — i.e. for all read sizes, all positions where a read ends, all buffer capacities > min — the real StreamChunkIter::next/StreamFindIter::next yield exactly st_rest(stream), the run of the abstract automaton over the concatenated stream with absolute offsets (Buffer::new/fill/roll proved with content postconditions). The in-memory side (FindIter over find_spec) is proved in u1_iter. Bounded companion: real readers with explicit schedules and capacities 1..8 bytes above the minimum (hook H2).',
         level_note=LEMMA_NOTE + COMMON_NOTE + ' Read contract = std documentation (assumption about the caller\'s reader). Buffer::free_buffer (one line, not expressible in vstd) is an external_body stub in the Verus units whose contract is checked on the real function by Kani (group buffer_free: exactly buf[end..] for every capacity up to 300000). Streams shorter than 2^64 bytes.',
     ),
@@ -93,7 +93,7 @@ PROPS = {
     ),
     'C09': dict(
         components=[(V, 'u1_search', {}), (V, 'u1_overlap', {}), (V, 'u1_iter', {}),
-                    sem('std,lf,ll', 'find,iter,anch,ovanch,spans'), sem('std,lf,ll', 'find,iter,anch,ovanch', families='wide,deep', cfgs='low'), sem('std,lf,ll', 'find,iter,anch', families='wide', cfgs='top'), sem('std,lf,ll', 'find,iter,anch,ovanch', families='ci', ci='1', cfgs='low')],
+                    sem('std,lf,ll', 'find,iter,anch,ovanch,spans'), sem('std,lf,ll', 'find,iter,anch,ovanch', families='wide,deep', cfgs='low'), sem('std,lf,ll', 'find,iter,anch', families='wide', cfgs='top'), sem('std,lf,ll', 'find,iter,anch,ovanch', families='ci', ci='1', cfgs='low'), sem('std,lf,ll', 'anch,ovanch', families='small', _plain='1')],
         level_text='Proof (Verus): with an anchored input the search loop keeps only matches starting at input.start (scan with fstart = Some(start)), the overlapping stepper reports exactly the kept matches (state_matches with keep), FindIter is generic in anchoring. Bounded stand-in: anchored results equal the definition restricted to occurrences starting at the span start, for NFAs and DFAs with Anchored/Both start kinds.',
         level_note=COMMON_NOTE,
     ),
@@ -103,7 +103,7 @@ PROPS = {
         level_note=COMMON_NOTE,
     ),
     'C11': dict(
-        components=[('kani', 'prefilter_leaf', {}), ('kani', 'prefilter_builder', {})] + [sem('std,lf,ll', 'find,iter,ov,anch', families='ci', ci='1'), sem('std,lf,ll', 'find,iter,ov', families='deep,wide', ci='1', cfgs='low'), sem('std,lf,ll', 'find,iter,ov', families='cimix', ci='1', cfgs='all'), b('pc'), b('bisim', families='ci')],
+        components=[('kani', 'prefilter_leaf', {}), ('kani', 'prefilter_builder', {})] + [sem('std,lf,ll', 'find,iter,ov,anch', families='ci', ci='1'), sem('std,lf,ll', 'find,iter,ov', families='deep,wide', ci='1', cfgs='low'), sem('std,lf,ll', 'find,iter,ov', families='cimix', ci='1', cfgs='all'), b('pc'), b('bisim', families='ci'), sem('std,lf,ll', 'find,ov', families='ci', ci='1', _plain='1')],
         level_text='Proof (Kani, complete over u8): opposite_ascii_case flips exactly A-Z/a-z, is an involution and fixes every other byte (boundary bytes and >= 0x80 included); RareByteOffsets::set keeps the per-byte maximum; StartBytesBuilder::add puts exactly the first byte and, under ci, its other-case twin into the set (complete); RareBytesBuilder::add records for every byte of a pattern and its twin an offset >= its position and puts some byte of every pattern into the rare set together with its twin (bounded: two patterns of <= 2 and <= 3 symbolic bytes). Bounded stand-in: definition with ASCII folding vs the real builders (both-case trie edges, byte classes, exact match-list multiplicity, ids as supplied) over letters of both cases, boundary bytes and non-ASCII bytes; prefilter contract with ci on; bisimulation of representations.',
         level_note=COMMON_NOTE + ' The trie construction with both-case edges is a builder (bounded stand-in only).',
     ),
@@ -123,17 +123,17 @@ PROPS = {
         level_note=COMMON_NOTE,
     ),
     'C15': dict(
-        components=[('kani', 'search_leaf', {}), ('kani', 'pattern_raw', {}), ('kani', 'teddy_searcher', {}), (V, 'u5_packed_api', {}), (V, 'u5_rabinkarp', {}), (V, 'u3_dfa', {}), (V, 'u3_nnfa', {}), (V, 'u3_cnfa', {})] + U1 + U2 + [(V, 'u7_replace', {}), (V, 'u7_replace_str', {}), b('packed', mode='safety'), b('pc', mode='safety'), b('replace', mode='safety')],
+        components=[('kani', 'search_leaf', {}), ('kani', 'pattern_raw', {}), ('kani', 'teddy_searcher', {}), (V, 'u5_packed_api', {}), (V, 'u5_rabinkarp', {}), (V, 'u3_dfa', {}), (V, 'u3_nnfa', {}), (V, 'u3_cnfa', {})] + U1 + U2 + [(V, 'u7_replace', {}), (V, 'u7_replace_str', {}), b('packed', mode='safety'), b('pc', mode='safety'), b('replace', mode='safety'), b('guard')],
         level_text='Proof (Verus): every index, slice, subtraction, addition, unwrap/expect/assert!/debug_assert! in the extracted search functions is a discharged obligation; reported matches satisfy start <= end <= len and pid < pattern count (match_in lemmas). Bounded stand-in for the raw-pointer SIMD code: all packed variants on exactly-sized allocations for lengths 0..=100.',
         level_note=COMMON_NOTE + ' Raw-pointer code (Teddy, is_prefix_raw) is covered by bounded runs only until the Kani unit lands.',
     ),
     'C16': dict(
-        components=[(V, 'u1_search', {}), (V, 'u1_recipe', {}), (V, 'u3_dfa', {}), (V, 'u3_nnfa', {}), (V, 'u3_cnfa', {}), (V, 'u1_forward', {}), ('kani', 'nnfa_leaf', {}), b('ac', families='small,abc,ci,many,wide'), b('repr'), b('repr-nnfa'), b('repr-cnfa'), sem('std,lf,ll', 'recipe', families='small,abc,deep', cfgs='low'), b('pc', aspects='recipe', mode='api'), b('nested')],
+        components=[(V, 'u1_search', {}), (V, 'u1_recipe', {}), (V, 'u3_dfa', {}), (V, 'u3_nnfa', {}), (V, 'u3_cnfa', {}), (V, 'u1_forward', {}), ('kani', 'nnfa_leaf', {}), b('ac', families='small,abc,ci,many,wide'), b('repr'), b('repr-nnfa'), b('repr-cnfa'), sem('std,lf,ll', 'recipe', families='small,abc,deep', cfgs='low'), b('pc', aspects='recipe', mode='api'), b('nested'), b('ac', families='small', _plain='1')],
         level_text='The Automaton contract AC is the hypothesis the proved search loops consume (Verus). The search routine printed in the trait documentation is cut out of the doc comment and proved to return the same find_spec as the built-in search (u1_recipe). For dfa::DFA the accessors themselves are proved (u3_dfa) under the representation invariant dfa_wf: next_state never indexes out of bounds and returns a state id, the dead state is absorbing, is_dead/is_match/is_special/is_start are the id comparisons of the layout, dead and match imply special, match_len/match_pattern index a non-empty list of valid pattern ids, start_state fails exactly for the mode whose start id is the dead state; dfa_wf is executed on the whole table of every real DFA of the bounded space (repr, hook H1). The same for the two NFAs: nfa::contiguous (u3_cnfa: next_state over the packed u32 encoding with its dense / one-transition / sparse states, failure loop, match_len/match_pattern decoders, all index arithmetic and bit operations) and nfa::noncontiguous (u3_nnfa: next_state with its failure loop, follow_transition with the dense row; the three iterator-closure helpers follow_transition_sparse/match_len/match_pattern are outside the Verus subset and are checked against the same definitions by Kani group nnfa_leaf, bounded by table size 5), under cnfa_wf / nnfa_wf, executed on every state x byte of every real NFA of the bounded space (repr-cnfa, repr-nnfa). Bounded stand-in, exhaustive per automaton: every clause of AC evaluated on all reachable states x 256 bytes x both anchoring arguments of every automaton of the bounded pattern space.',
         level_note=COMMON_NOTE,
     ),
     'C17': dict(
-        components=[(S, 'frame_scan', {}), ('kani', 'pattern_raw', {}), b('purity')],
+        components=[(S, 'frame_scan', {}), ('kani', 'pattern_raw', {}), b('purity'), b('guard')],
         level='other',
         explanation='Sequential half: every function under contract has a postcondition result = spec(arguments), a history-free function. The schedule quantifier is not decided by this family (Kani has no threads, Verus cannot model std::thread); a differential run (orders, clones, 8 threads) is the only dynamic evidence.',
         level_text='Frame obligation (syntactic, whole crate): no construct through which &self code could mutate shared state exists in library code outside the guarded hooks (interior mutability, statics, thread-locals, const->mut casts, pointer writes) — so, by Rust\'s aliasing rules, every search is a function of the searcher and its input. The schedule quantifier itself is not decided by this family; a differential run (orders, clones, in-place modified buffers, relocated haystacks, 8 threads) is the only dynamic evidence; the raw-pointer compare of the packed searchers is checked by Kani to be a function of the bytes at every offset of the window in its object.',
@@ -150,8 +150,8 @@ PROPS = {
         level_note=COMMON_NOTE,
     ),
     'C20': dict(
-        components=[('kani', 'primitives_leaf', {}), (V, 'u1_forward', {}), (V, 'u3_dfa', {}), (V, 'u3_nnfa', {}), (V, 'u3_cnfa', {})] + [b('meta')],
-        level_text='Proof (Kani, complete over usize): SmallIndex/StateID/PatternID::new fail exactly above their limit and round-trip the value (size limits surface as errors, not panics). Proof (Verus): the metadata accessors patterns_len / pattern_len / min_pattern_len / max_pattern_len / match_kind of the three automaton types return the stored fields (u3_dfa, u3_nnfa, u3_cnfa) and the two forwarding impls (&A, the Arc<dyn> of the front end) forward each accessor to the same-named accessor (u1_forward). Bounded stand-in: shape-diverse pattern collections x option combinations: no panic, requested kind returned, automatic kind rule, metadata mirrors input, ids are input positions.',
+        components=[('kani', 'primitives_leaf', {}), (V, 'u1_forward', {}), (V, 'u3_dfa', {}), (V, 'u3_nnfa', {}), (V, 'u3_cnfa', {}), (V, 'u4_nnfa_build', {})] + [b('meta')],
+        level_text='Proof (Kani, complete over usize): SmallIndex/StateID/PatternID::new fail exactly above their limit and round-trip the value (size limits surface as errors, not panics). Proof (Verus): the metadata accessors patterns_len / pattern_len / min_pattern_len / max_pattern_len / match_kind of the three automaton types return the stored fields (u3_dfa, u3_nnfa, u3_cnfa) and the two forwarding impls (&A, the Arc<dyn> of the front end) forward each accessor to the same-named accessor (u1_forward). Bounded stand-in: shape-diverse pattern collections x option combinations: no panic, requested kind returned, automatic kind rule, metadata mirrors input, ids are input positions. Builder side (Verus, u4_nnfa_build): the mutators with which the noncontiguous compiler writes the automaton — add_transition, add_match, copy_matches, alloc_state/transition/match, next_link — keep the builder-time representation invariant bwf (sorted acyclic sparse chains, links in bounds, chains of different states disjoint, forward match links) and change the abstract view in exactly one point: the added edge is the edge that is found and no other byte of any state changes its answer; a match is appended last and a copied list follows the own list in source order, once each; overflow of the id space is an Err. The compiler passes that call them are out of reach (bounded only).',
         level_note=COMMON_NOTE + ' The builders themselves are beyond Verus/Kani here (bounded stand-in only).',
     ),
 }
